@@ -133,7 +133,7 @@ func c14For(c *Ctx, pp string) {
 	pk := t.SSA[pp]
 	tag := pk.Pkg.Name()
 	run := t.Method(pp, "Script", "Run")
-	runStmts := pk.Func("RunStmts")
+	runStmts := pkgFunc(pk, "RunStmts")
 	procExit := t.Method(pp, "Task", "ProcExit")
 	stmtRet := t.Method(pp, "Task", "StmtRetrun")
 	if run == nil || runStmts == nil || procExit == nil || stmtRet == nil {
@@ -169,7 +169,7 @@ func c14For(c *Ctx, pp string) {
 		// the signal of the task RefRun was called with (its parameter), not of the fresh task
 		ok, _ := plumbsThenRuns(rr, func(v ssa.Value) bool {
 			for _, prm := range rr.Params {
-				if path(v) == prm.Name()+".signal" && strings.HasSuffix(prm.Type().String(), "Task") {
+				if path(v) == pname(prm)+".signal" && strings.HasSuffix(prm.Type().String(), "Task") {
 					return true
 				}
 			}
@@ -615,10 +615,10 @@ func pollFnSpec(procExit, stmtRet *ssa.Function) (latchOK, stmtOK bool) {
 		cfg := &specCfg{MaxLoop: 2, MaxDepth: 3, Consistent: true}
 		var args []sval
 		for _, p := range procExit.Params {
-			args = append(args, symv(p.Name()))
+			args = append(args, symv(pname(p)))
 		}
 		outs, ab := cfg.run(procExit, args)
-		latch := procExit.Params[0].Name() + ".procExit"
+		latch := pname(procExit.Params[0]) + ".procExit"
 		latchOK = ab == "" && len(outs) > 0
 		for _, o := range outs {
 			lits := map[string]bool{}
@@ -667,7 +667,7 @@ func pollFnSpec(procExit, stmtRet *ssa.Function) (latchOK, stmtOK bool) {
 		}
 		var args []sval
 		for _, p := range stmtRet.Params {
-			args = append(args, symv(p.Name()))
+			args = append(args, symv(pname(p)))
 		}
 		outs, ab := cfg.run(stmtRet, args)
 		stmtOK = ab == "" && len(outs) > 0
